@@ -32,6 +32,22 @@ THEOREMS = [
     "HedVerif.C04.empty_groups_counterexample",
     "HedVerif.Dup.canon_eq_of_skey",
     "HedVerif.C04.shortClean_adm",
+    # growth: the whole validator (Model/Validate.lean)
+    "HedVerif.C04.spacing_invariant_text",
+    "HedVerif.C04.spacing_invariant_full_partial",
+    "HedVerif.C04.order_invariant_full_partial",
+    "HedVerif.C04.spelling_invariant_full_partial",
+    "HedVerif.C04.rewrite_printed_invariant_partial",
+    "HedVerif.C04.rewrite_invariant_partial",
+    "HedVerif.C04.dup_rule_is_dup_model",
+    "HedVerif.Rewrite.validate_sim",
+    "HedVerif.Rewrite.validateP_sim",
+    "HedVerif.Rewrite.validateP_congr",
+    "HedVerif.Rewrite.construct_ev",
+    "HedVerif.Rewrite.textIssues_blankRel",
+    "HedVerif.Rewrite.textIssues_render",
+    "HedVerif.Rewrite.mkTagW_core",
+    "HedVerif.C04.textOK_ab",
 ]
 BUDGET = {"quick": 600, "thorough": 3000}
 
@@ -58,8 +74,8 @@ CORPUS = [
 
 # `is_definition = group in all_definition_groups` (hed_validator.py) is a structural, order-sensitive `==`: a group
 # written exactly like a group inside a Definition is exempted from the placeholder check
-# (fix proposed: fixes/C04_definition_group_identity.diff)
-SIG_DEFGROUP = "C04-definition-group-structural-membership"
+# (fixed in /repo by 5440313, fixes/C04_definition_group_identity.diff; kept as a regression witness)
+SIG_DEFGROUP = "C04-definition-group-equality"
 
 
 def install_recorder():
